@@ -531,19 +531,23 @@ void Explore(Ex& ex, std::vector<int>& seq)
     }
 }
 
-// all canonical operation prefixes of length n, in lexicographic order
-void Prefixes(const Ex& ex, int n, std::vector<int>& cur, std::vector<std::vector<int>>& out)
+// all canonical operation prefixes of length n, in lexicographic order (same rule as SymOk, tracked incrementally)
+void PrefixesRec(const Ex& ex, int n, int up, int ut, std::vector<int>& cur, std::vector<std::vector<int>>& out)
 {
     if (static_cast<int>(cur.size()) == n) {
         out.push_back(cur);
         return;
     }
     for (int a = 0; a < static_cast<int>(ex.alpha.size()); ++a) {
+        const Op& o = ex.alpha[a];
+        if (UsesPeer(o) && (o.p > up || (o.p == up && o.kind != INV))) continue;
+        if (UsesTx(o) && (o.t > ut || (o.t == ut && o.kind != INV))) continue;
         cur.push_back(a);
-        if (SymOk(ex, cur)) Prefixes(ex, n, cur, out);
+        PrefixesRec(ex, n, up + (o.kind == INV && o.p == up), ut + (o.kind == INV && o.t == ut), cur, out);
         cur.pop_back();
     }
 }
+void Prefixes(const Ex& ex, int n, std::vector<int>& cur, std::vector<std::vector<int>>& out) { PrefixesRec(ex, n, 0, 0, cur, out); }
 
 } // namespace
 
